@@ -447,6 +447,69 @@ func VerifH_C01_ops() {
 	cb := pkg.NewFunc(nil, "f", nil, nil, false).BodyStart(pkg)
 	ops := []string{"slice", "slice3", "index", "index2", "star", "elem", "assert", "assert2", "unary-", "unary!", "unary^", "unary<-", "unary&", "binary+", "binary-", "binary<<", "binary==", "binary<", "binary&&", "binary%", "member", "call1", "call0"}
 	op := ops[vp.Choose("op", len(ops))]
+	// the same expression written as Go source (completeness direction)
+	operandSrc := []string{"i", "s", "sl", "m", "p", "st", "fn", "ch", "e", "nil", "5", "int", "fn()", "arr", "1.5"}
+	srcA := operandSrc[vp.Choose("a", 15)]
+	goExpr, goLHS := "", "_"
+	binary := func(tok string) string { return srcA + " " + tok + " " + operandSrc[vp.Choose("b", 15)] }
+	switch op {
+	case "slice":
+		goExpr = srcA + "[:" + operandSrc[vp.Choose("b", 15)] + "]"
+	case "slice3":
+		goExpr = srcA + "[:" + operandSrc[vp.Choose("b", 15)] + ":2]"
+	case "index":
+		goExpr = srcA + "[" + operandSrc[vp.Choose("b", 15)] + "]"
+	case "index2":
+		goExpr, goLHS = srcA+"["+operandSrc[vp.Choose("b", 15)]+"]", "_, _"
+	case "star", "elem":
+		goExpr = "*" + srcA
+	case "assert":
+		goExpr = srcA + ".(int)"
+	case "assert2":
+		goExpr, goLHS = srcA+".(error)", "_, _"
+	case "unary-":
+		goExpr = "-" + srcA
+	case "unary!":
+		goExpr = "!" + srcA
+	case "unary^":
+		goExpr = "^" + srcA
+	case "unary<-":
+		goExpr, goLHS = "<-"+srcA, "_, _"
+	case "unary&":
+		goExpr = "&" + srcA
+	case "binary+":
+		goExpr = binary("+")
+	case "binary-":
+		goExpr = binary("-")
+	case "binary<<":
+		goExpr = binary("<<")
+	case "binary==":
+		goExpr = binary("==")
+	case "binary<":
+		goExpr = binary("<")
+	case "binary&&":
+		goExpr = binary("&&")
+	case "binary%":
+		goExpr = binary("%")
+	case "member":
+		goExpr = srcA + ".X"
+	case "call1":
+		goExpr = srcA + "(" + operandSrc[vp.Choose("b", 15)] + ")"
+	case "call0":
+		goExpr = srcA + "()"
+	}
+	goOK := false
+	if goExpr != "" && srcA != "int" {
+		fs := token.NewFileSet()
+		gf, gerr := parser.ParseFile(fs, "g.go", verifOpsEnv+"\nfunc zz() {\n"+goLHS+" = "+goExpr+"\n}\n", 0)
+		if gerr == nil {
+			bad := false
+			gtc := types.Config{Importer: importer.Default(), Error: func(error) { bad = true }}
+			gtc.Check("example.com/p", fs, []*ast.File{gf}, nil)
+			goOK = !bad
+		}
+	}
+	vp.Observe("goexpr", goExpr)
 	var ret *Element
 	class := vp.Try(func() {
 		verifC17Operand(cb, pkg, "a")
@@ -497,6 +560,10 @@ func VerifH_C01_ops() {
 		ret = cb.Get(-1)
 	})
 	vp.Assert("C17.c01ops.nofault", class != vp.FaultPanic)
+	if goOK {
+		vp.Fact("anyindex", verifB2I(srcA == "e" && (op == "index" || op == "index2" || op == "member")))
+		vp.Assert("C02.ops.complete", class == vp.NoPanic)
+	}
 	if class != vp.NoPanic || ret == nil || ret.Type == nil {
 		return
 	}
